@@ -347,6 +347,13 @@ def F19():
     return [] if abs(i["S"] - i["L"]) <= 1e-6 * i["L"] else ["load draws %g A but its source delivers %g A" % (i["L"], i["S"])]
 
 
+def F20():
+    """C10: a 1-D table whose io axis is written with negative signs is looked up on a falling axis"""
+    a = VLoss("a", vdrop={"vi": [5.0], "io": [-0.9, -0.5, -0.1], "vdrop": [[0.9, 0.5, 0.1]]})
+    got = [float(a._ipr._interp(x, 5.0)) for x in (0.1, 0.5, 0.9)]
+    return [] if got == [0.1, 0.5, 0.9] else ["lookup at the grid points 0.1, 0.5, 0.9 returns %r" % got]
+
+
 ALL = {k: v for k, v in globals().items() if k[0] == "F" and k[1:].isdigit()}
 if __name__ == "__main__":
     rc = 0
